@@ -1527,6 +1527,14 @@ def f_denominator(c):
                 M = (1 << b) - 1
                 arb = {16: [1000, 12345, 40503], 32: [1000000007, 123456789, 0xDEADBEEF, 3000000019 & M],
                        64: [0x123456789ABCDEF, 1000000000000000009, 0xFEDCBA9876543211, 6700417 * 4294967291, (3 << 40) + 12345, 7777777777777, 99194853094755497]}[b]
+                # plus a fixed pseudo-random sample (LCG, same on every run): divisor-dependent slips of a multi-word division
+                # routine typically hit a fixed fraction of all divisors, which a lattice of "nice" values can miss entirely
+                x = 0x9E3779B97F4A7C15
+                rnd = []
+                for _ in range(40):
+                    x = (x * 6364136223846793005 + 1442695040888963407) & ((1 << 64) - 1)
+                    rnd.append((x >> (64 - b)) | 1)
+                arb = arb + rnd
                 vals = sorted(set(denom_lattice(t) + [v & M for v in arb]))
                 cc = []
                 for v in vals:
@@ -1555,7 +1563,7 @@ def f_denominator(c):
                             ens.append(('sh2 == l - 1', '(uint64_t)(uint%d_t)(%s).sh2 == %dull' % (b, RV, lu - 1)))
                     cc.append((v, '(uint64_t)(uint%d_t)%s == %dull' % (b, d0, v), ens))
                 k.ctor_consts = cc
-                k.ctor_quick = set(vals[:3] + [v & M for v in arb[:2]] + [M - 2, (1 << (b - 1)) + 1, 1 << (b - 1)])
+                k.ctor_quick = set(vals[:3] + [v & M for v in arb[:2]] + [v & M for v in rnd[:8]] + [M - 2, (1 << (b - 1)) + 1, 1 << (b - 1)])
             if fn['owner'] == 'Denom_i32':
                 # code-level contract (modulo-lemma L4): the constructor stores the signed Granlund-Montgomery parameters of d
                 d0 = c.a(0)
